@@ -698,3 +698,63 @@ Definition cfi_spec (w : Z) (E : env) (r : cfi_record) (addr : Z) : option (Z * 
         end
     end
   else None.
+
+(* ==== the documented result for the REAL walker (CfiStackWalker over a context of architecture [a]):
+        caller context and validity, register by canonical (memoized) name ==== *)
+(* the first rule target in [l] that names the machine register [c] *)
+Fixpoint find_canon (a : arch) (c : bytes) (l : list (cfireg * expr)) : option (bytes * expr) :=
+  match l with
+  | [] => None
+  | (ROther n, e) :: r =>
+      match memoize a n with
+      | Some c' => if beq c' c then Some (n, e) else find_canon a c r
+      | None => find_canon a c r
+      end
+  | _ :: r => find_canon a c r
+  end.
+
+Definition cfi_spec_real (a : arch) (E : env) (r : cfi_record) (addr : Z) (s0 : rstate)
+  : option ((bytes -> Z) * (bytes -> bool)) :=
+  if cfi_covers r addr then
+    match all_pairs (snd (c_init r) :: map snd (take_applicable addr (sort_cfi (c_add r)))) with
+    | None => None
+    | Some ps =>
+        match last_rule RCfa ps, last_rule RRa ps with
+        | Some ce, Some re =>
+            match spec_eval E None ce with
+            | None => None
+            | Some cfa =>
+                match spec_eval E (Some cfa) re with
+                | None => None
+                | Some ra =>
+                    match memoize a (a_sp a), memoize a (a_ip a) with
+                    | Some spc, Some ipc =>
+                        if fits (a_width a) cfa && fits (a_width a) ra then
+                          (* the stack pointer is the CFA, the instruction pointer the return address;
+                             everything else starts as forwarded from the callee (s0) *)
+                          let bctx := fun c => if beq c ipc then ra else if beq c spc then cfa else r_ctx s0 c in
+                          let bval := fun c => if beq c ipc then true else if beq c spc then true else r_valid s0 c in
+                          (* a register with a rule: its value if the rule evaluates and fits, else unknown *)
+                          let res := fun c =>
+                            match find_canon a c ps with
+                            | Some (n, _) =>
+                                match last_rule (ROther n) ps with
+                                | Some e =>
+                                    match spec_eval E (Some cfa) e with
+                                    | Some v => if fits (a_width a) v then (v, true) else (bctx c, false)
+                                    | None => (bctx c, false)
+                                    end
+                                | None => (bctx c, bval c)
+                                end
+                            | None => (bctx c, bval c)
+                            end in
+                          Some (fun c => fst (res c), fun c => snd (res c))
+                        else None
+                    | _, _ => None
+                    end
+                end
+            end
+        | _, _ => None
+        end
+    end
+  else None.
